@@ -343,6 +343,13 @@ def cond(t, a, b):
         return a if truthy(t) else b
     if a == b:
         return a
+    # (0 if not x else x) and (x if x else 0) are x for a number x
+    if t.op == "not" and a == ZERO and (t.args[0] == b or (t.args[0].op == "bool" and t.args[0].args[0] == b)):
+        return b
+    if b == ZERO and (t == a or (t.op == "bool" and t.args[0] == a)):
+        return a
+    if t.op == "cmp" and t.args[0] == "==" and t.args[2] == ZERO and a == ZERO and t.args[1] == b:
+        return b
     return E("cond", t, a, b)
 
 
@@ -677,6 +684,10 @@ def ratfunc(e, expand_logs=False):
         return RatFunc(Poly.atom(_atom_key(e, expand_logs)))
     if op == "call" and expand_logs and e.args[0] == "log" and len(e.args) == 2:
         return _log_expand(e.args[1], expand_logs)
+    if op == "call" and expand_logs:
+        lf = _logfact_form(e, expand_logs)
+        if lf is not None:
+            return lf
     if op == "call" and e.args[0] == "sqrt" and len(e.args) == 2:
         # sqrt(c) for rational perfect squares
         a = e.args[1]
@@ -690,6 +701,31 @@ def ratfunc(e, expand_logs=False):
         if a.op == "call" and a.args[0] == "log":
             return ratfunc(a.args[1], expand_logs)
     return RatFunc(Poly.atom(_atom_key(e, expand_logs)))
+
+
+def _logfact_atom(k, expand_logs):
+    """log k! as an atom keyed by the canonical form of k (k a non-negative integer by construction)"""
+    if is_num(k) and k.value.denominator == 1 and 0 <= k.value <= 1:
+        return RatFunc(Poly.const(0))
+    return RatFunc(Poly.atom("logfact(%s)" % canon(k, expand_logs)))
+
+
+def _logfact_form(e, expand_logs):
+    """Other spellings of a log-factorial: sum(log(arange(a, b))) = log (b-1)! - log (a-1)!,
+    lgamma(k) = log (k-1)!."""
+    name = e.args[0]
+    if name in (".sum", "np.sum", "sum") and len(e.args) == 2:
+        a = e.args[1]
+        if a.op == "call" and a.args[0] == "log" and len(a.args) == 2:
+            r = a.args[1]
+            if r.op == "call" and r.args[0] in ("np.arange", "range") and len(r.args) in (2, 3):
+                lo, hi = (r.args[1], r.args[2]) if len(r.args) == 3 else (None, r.args[1])
+                if lo is None:
+                    return None  # arange(n) starts at 0: log 0
+                return _logfact_atom(sub(hi, ONE), expand_logs) + (-_logfact_atom(sub(lo, ONE), expand_logs))
+    if isinstance(name, str) and name.split(".")[-1] in ("lgamma", "gammaln") and len(e.args) == 2:
+        return _logfact_atom(sub(e.args[1], ONE), expand_logs)
+    return None
 
 
 def _log_expand(x, expand_logs):
@@ -706,6 +742,8 @@ def _log_expand(x, expand_logs):
         return ratfunc(x.args[1], expand_logs)
     if x.op == "call" and x.args[0] == "sqrt":
         return RatFunc(Poly.const(Fraction(1, 2))) * _log_expand(x.args[1], expand_logs)
+    if x.op == "call" and x.args[0] == "factorial" and len(x.args) == 2:
+        return _logfact_atom(x.args[1], expand_logs)
     if is_num(x) and x.value > 0:
         v = x.value
         if v == 1:
@@ -847,6 +885,21 @@ def evaluate(e, env):
         return evaluate(e.args[1] if _truth(evaluate(e.args[0], env)) else e.args[2], env)
     if op == "call":
         name = e.args[0]
+        if name in (".sum", "np.sum", "sum") and len(e.args) == 2 and e.args[1].op == "call" and e.args[1].args[0] == "log":
+            r = e.args[1].args[1]
+            if r.op == "call" and r.args[0] in ("np.arange", "range") and len(r.args) == 3:
+                lo, hi = evaluate(r.args[1], env), evaluate(r.args[2], env)
+                if isinstance(lo, Fraction) and isinstance(hi, Fraction) and lo.denominator == 1 and hi.denominator == 1 and lo >= 1 and hi - lo < 500:
+                    tot = D(0)
+                    for k in range(int(lo), int(hi)):
+                        tot += _CTX.ln(D(k))
+                    return tot
+            raise Inconclusive("sum of logs over a non-integer range")
+        if isinstance(name, str) and name.split(".")[-1] in ("lgamma", "gammaln") and len(e.args) == 2:
+            a = evaluate(e.args[1], env)
+            if isinstance(a, Fraction) and a.denominator == 1 and 1 <= a <= 200:
+                return _CTX.ln(D(math.factorial(int(a) - 1)))
+            raise Inconclusive("lgamma of non-integer")
         args = [evaluate(a, env) for a in e.args[1:]]
         return _call_numeric(name, args)
     raise Inconclusive("cannot evaluate %s" % op)
